@@ -48,8 +48,11 @@ def builtinHier : Hier := builtinTab.toHier
 /-- the decision shape of the code the model mirrors, as read from the AST on this run -/
 def shapeOK : Bool :=
   Generated.c13InitFresh && Generated.c13InitOrder && Generated.c13RegisterResetsMemo &&
-  !Generated.c13RegisterOpResetsMemo && Generated.c13ClosestPicksMin &&
-  Generated.c13GlommerOwnRegistry && Generated.c13GlommerDelegates &&
+  Generated.c13RegisterOpResetsMemo && Generated.c13ClosestPicksMin &&
+  Generated.c13ClosestDropsSupers && Generated.c13MatchingDeepest &&
+  Generated.c13FuzzyGuardsExisting &&
+  Generated.c13GlommerOwnRegistry && Generated.c13GlommerCopiesOps &&
+  Generated.c13GlommerDelegates &&
   Generated.c13ModuleDelegates && Generated.c13ModuleRegistryDefault
 
 end Glom.C13
